@@ -17,13 +17,13 @@ RULE = ('(a) Library round trip through the harness: samples are built in memory
         '30 k, tables from a handful to ~20 000 rows (several compression frames).  (b) Command line: `ska align/map <fastas>` '
         '(in-memory route, k=17) against `ska build` + the same command on the file.  (c) Narrow files: for k in '
         '{33,35,37,41,51,63}, tables whose stored k-mers all fit in 64 bits (arms starting with enough A) next to ordinary '
-        'rows-shifted copies; nk, align, map, distance, weed, delete and merge in both argument orders must agree with the '
+        'rows-shifted copies; nk, align, map, distance, weed (with random filter flags), a delete on the file that weed saved, delete and merge in both argument orders must agree with the '
         'model, and nk must report k_bits=128.  (e) Files whose table is empty after weeding/filtering (samples, no k-mers): read-out and merge as first, last and middle argument against the model.  (d) One build/save/load/read-out per width under Miri (quick: read-out at k=33; thorough: read-out at k=9,31,33,63 and align/weed/delete/map/distance at k=9 and 33), compared with the native run.  Non-trivial: the file has at least one k-mer and (c) really fits in 64 bits; '
         'distinct = distinct (k, mode, input, operation).')
 ASSUMPTIONS = ['in-memory vs reloaded comparison is model-free; part (c) uses the reference model',
                'the harness reload mimics the command-line width dispatch (u64 first, then u128)']
 REQUIRED = {t: ['rt:nk', 'rt:align', 'rt:dist', 'rt:map', 'rt:vcf', 'rt:weed', 'rt:delete', 'cli:align', 'cli:map',
-                'narrow:nk', 'narrow:align', 'narrow:map', 'narrow:distance', 'narrow:weed', 'narrow:delete',
+                'narrow:nk', 'narrow:align', 'narrow:map', 'narrow:distance', 'narrow:weed', 'narrow:weed-then-delete', 'narrow:delete',
                 'narrow:merge-first', 'narrow:merge-second', 'narrow_files_fit_64_bits', 'multi_frame_files', 'rt_rows_compared', 'miri_round_trips', 'empty:nk', 'empty:merge-first', 'empty:merge-second', 'empty:merge-middle']
             for t in ('quick', 'thorough')}
 NARROW_K = [33, 35, 37, 41, 51, 63]
@@ -324,6 +324,23 @@ def run_narrow(desc, ctx, res):
                 viol('weed', 'weeded file differs from the model (reverse=%s flags=%s): %s' % (rev, wflags, p.stderr.strip()[-120:]))
             elif judged:
                 res.count('narrow:weed')
+                # the file the weed saved is used again: a delete on it equals the delete on its content, whatever else the
+                # weed (with its count-changing flags) left in the file
+                keepcols = [i for i in range(ns) if any(r[i] != '-' for r in expw.values())]
+                if expw and len(keepcols) >= 2:
+                    dn2 = sorted(rng.sample(range(ns), rng.randint(1, ns - 1)))
+                    p2 = ctx.sh(b, 'delete', '-s', ctx.path('weeded.skf'), '-o', ctx.path('weeded_deleted'), *[names[i] for i in dn2])
+                    res.evals += 1
+                    try:
+                        hd2, Td2 = G.nk(ctx, ctx.path('weeded_deleted.skf'), binary=b) if p2.returncode == 0 else (None, None)
+                    except (G.NkFailed, ValueError):
+                        hd2, Td2 = None, None
+                    want2 = M.t_delete(expw, set(dn2))
+                    if p2.returncode == 0 and want2 and Td2 != want2:
+                        d2_ = [(x, (Td2 or {}).get(x), want2.get(x)) for x in set(Td2 or {}) | set(want2) if (Td2 or {}).get(x) != want2.get(x)]
+                        viol('weed-then-delete', 'delete %s on the file saved by weed %s differs from the delete on its content: %s' % (dn2, wflags, d2_[:3]))
+                    elif p2.returncode == 0:
+                        res.count('narrow:weed-then-delete')
         # delete
         dn = sorted(rng.sample(range(ns), rng.randint(1, ns - 1)))
         p = ctx.sh(b, 'delete', '-s', ctx.path('narrow.skf'), '-o', ctx.path('deleted'), *[names[i] for i in dn])
